@@ -82,7 +82,8 @@ Definition model_mismatch (k : case) : bool :=
   || match k_mode k with
      | 0 => negb (list_eqb op_eqb (model_ops k) (i_ops k)) || negb (final_agrees k)
      | 1 => negb (prefix_ops (i_ops k) (model_ops k))
-     | _ => negb (subseq_ops (i_ops k) (model_ops k))
+     | 2 => negb (subseq_ops (i_ops k) (model_ops k))
+     | _ => false                        (* 3: untraced subprocess run, snapshots only *)
      end.
 
 (* ---- the property, evaluated on what the implementation reported and did ---- *)
@@ -93,8 +94,13 @@ Definition i_roots (k : case) : list path :=
 Definition proper_anc (rs : list path) (p : path) : bool :=
   existsb (fun r => prefixb p r && negb (path_eqb p r)) rs.
 
+(* a copy of a tree onto itself cannot create, change or delete anything (the destination
+   exists whenever the source does): not counted as touching its target *)
+Definition self_copy (o : op) : bool :=
+  match o with CopyTree a b => path_eqb a b | _ => false end.
+
 Definition targets_ok (rs : list path) (ops : list op) : bool :=
-  forallb (fun o => forallb (under_anyb rs) (targets o)) ops.
+  forallb (fun o => self_copy o || forallb (under_anyb rs) (targets o)) ops.
 
 Definition snap_agree_outside (rs : list path) (pre post : list (path * meta)) : bool :=
   forallb (fun e => under_anyb rs (fst e) || opt_eqb meta_eqb (lookup (fst e) post) (Some (snd e))) pre
@@ -114,7 +120,11 @@ Definition spec_violation (k : case) : bool :=
        || negb (snap_agree_outside (i_roots k) (k_pre_meta k) (i_post_meta k)).
 
 Definition region (k : case) : nat :=
-  (if pages_copy_ok (k_pages k) then 0 else 1) + (if pages_loc_ok (k_pages k) then 0 else 2).
+  (if forallb copy_safe (k_pages k) then 0 else 1) + (if pages_loc_ok (k_pages k) then 0 else 2).
+
+Definition rp (a : bool) (l : list str) : rpath := {| rp_abs := a; rp_comps := l |}.
+Definition pg (loc : list str) (stem : str) (cp : list rpath) (files : list str) : page :=
+  {| pg_loc := loc; pg_stem := stem; pg_copy := cp; pg_files := files |}.
 
 Definition judge (k : case) : nat := verdict (model_mismatch k) (spec_violation k) (region k).
 
@@ -150,4 +160,4 @@ Definition explain (k : case) : list string :=
          (filter (fun p => negb (opt_eqb node_eqb (run (model_ops k) (model_fs0 k) p) (lookup p (i_post k))))
                  (map fst (k_pre k) ++ map fst (i_post k) ++ flat_map targets (model_ops k)))
   ++ map (fun o => ("unconfined " ++ show_op o)%string)
-         (filter (fun o => negb (forallb (under_anyb (i_roots k)) (targets o))) (i_ops k)).
+         (filter (fun o => negb (self_copy o || forallb (under_anyb (i_roots k)) (targets o))) (i_ops k)).
